@@ -429,52 +429,41 @@ Proof.
   induction a as [| [[|] q] a IH]; intros; cbn [app undo_charges]; try rewrite IH; reflexivity.
 Qed.
 
-Definition refuses (sz : N) (q : qos) : Prop := qos_is_active q = true /\ qos_admits q 1 sz = false.
-Definition admits_if_active (sz : N) (q : qos) : Prop := qos_is_active q = true -> qos_admits q 1 sz = true.
-
 Lemma reserve_loop_spec : forall sz ws charged orig,
-  undo_charges charged sz = orig -> map snd charged = map (charge_if_active sz) orig ->
+  undo_charges charged sz = orig -> map snd charged = map (fun q => qos_charged q 1 sz) orig ->
   Forall qos_wf ws -> Forall (fun q => qos_no_wrap q 1 sz = true) ws ->
-  let r := reserve_loop true charged ws sz in
-  (fst r = true -> snd r = map (charge_if_active sz) (orig ++ ws) /\ Forall (admits_if_active sz) ws) /\
-  (fst r = false -> snd r = orig ++ ws /\ Exists (refuses sz) ws).
+  let r := reserve_loop true false charged ws sz in
+  (fst r = true -> snd r = map (fun q => qos_charged q 1 sz) (orig ++ ws) /\ Forall (fun q => qos_admits q 1 sz = true) ws) /\
+  (fst r = false -> snd r = orig ++ ws /\ Exists (fun q => qos_admits q 1 sz = false) ws).
 Proof.
   intros sz. induction ws as [| q t IH]; intros charged orig Hu Hm Hwf Hnw.
   - cbn [reserve_loop fst snd]. rewrite app_nil_r. split; [auto | discriminate].
   - apply Forall_cons_iff in Hwf. destruct Hwf as [Hwq Hwt]. apply Forall_cons_iff in Hnw. destruct Hnw as [Hnq Hnt].
-    cbn [reserve_loop].
-    destruct (qos_is_active q) eqn:Eact; cbn [negb].
-    + pose proof (inc_admission_h q 1 sz Hnq) as Had. pose proof (inc_charges_h q 1 sz Hnq) as Hch.
-      pose proof (inc_refusal_unchanged_h q 1 sz) as Hre. pose proof (dec_inc_cancel_h q 1 sz Hwq Hnq) as Hcan.
-      destruct (Qos.qos_inc q 1 sz) as [ok q'] eqn:Einc. cbn [fst snd] in *. destruct ok.
-      * specialize (Hch eq_refl). specialize (Hcan eq_refl).
-        specialize (IH (charged ++ [(true, q')]) (orig ++ [q])).
-        destruct IH as [IH1 IH2]; try assumption.
-        { rewrite undo_charges_app, Hu. cbn [undo_charges]. rewrite Hcan. reflexivity. }
-        { rewrite !map_app, Hm. cbn [map snd]. unfold charge_if_active at 3. rewrite Eact, Hch. reflexivity. }
-        rewrite <- app_assoc in IH1, IH2. cbn [app] in IH1, IH2.
-        split; intro Hr.
-        -- destruct (IH1 Hr) as [A B]. split; [exact A|]. constructor; [| exact B]. intros _. symmetry. exact Had.
-        -- destruct (IH2 Hr) as [A B]. split; [exact A|]. apply Exists_cons_tl. exact B.
-      * specialize (Hre eq_refl). subst q'. cbn [fst snd]. split; [discriminate|]. intros _.
-        rewrite Hu. split; [reflexivity|]. apply Exists_cons_hd. split; [assumption | symmetry; exact Had].
-    + specialize (IH (charged ++ [(false, q)]) (orig ++ [q])).
+    cbn [reserve_loop andb].
+    pose proof (inc_admission_h q 1 sz Hnq) as Had. pose proof (inc_charges_h q 1 sz Hnq) as Hch.
+    pose proof (inc_refusal_unchanged_h q 1 sz) as Hre. pose proof (dec_inc_cancel_h q 1 sz Hwq Hnq) as Hcan.
+    destruct (Qos.qos_inc q 1 sz) as [ok q'] eqn:Einc. cbn [fst snd] in *. destruct ok.
+    + specialize (Hch eq_refl). specialize (Hcan eq_refl).
+      specialize (IH (charged ++ [(true, q')]) (orig ++ [q])).
       destruct IH as [IH1 IH2]; try assumption.
-      { rewrite undo_charges_app, Hu. reflexivity. }
-      { rewrite !map_app, Hm. cbn [map snd]. unfold charge_if_active at 3. rewrite Eact. reflexivity. }
+      { rewrite undo_charges_app, Hu. cbn [undo_charges]. rewrite Hcan. reflexivity. }
+      { rewrite !map_app, Hm. cbn [map snd]. rewrite Hch. reflexivity. }
       rewrite <- app_assoc in IH1, IH2. cbn [app] in IH1, IH2.
       split; intro Hr.
-      * destruct (IH1 Hr) as [A B]. split; [exact A|]. constructor; [| exact B]. intros Hc. congruence.
+      * destruct (IH1 Hr) as [A B]. split; [exact A|]. constructor; [symmetry; exact Had | exact B].
       * destruct (IH2 Hr) as [A B]. split; [exact A|]. apply Exists_cons_tl. exact B.
+    + specialize (Hre eq_refl). subst q'. cbn [fst snd]. split; [discriminate|]. intros _.
+      rewrite Hu. split; [reflexivity|]. apply Exists_cons_hd. symmetry; exact Had.
 Qed.
 
 Lemma reserve_all_or_nothing_h : forall ws size,
   Forall qos_wf ws -> Forall (fun q => qos_no_wrap q 1 (body_size32 size) = true) ws ->
   let r := reserve true ws size in
-  (fst r = true -> snd r = map (charge_if_active (body_size32 size)) ws /\ Forall (admits_if_active (body_size32 size)) ws) /\
-  (fst r = false -> snd r = ws /\ Exists (refuses (body_size32 size)) ws).
+  (fst r = true -> snd r = map (fun q => qos_charged q 1 (body_size32 size)) ws /\
+                   Forall (fun q => qos_admits q 1 (body_size32 size) = true) ws) /\
+  (fst r = false -> snd r = ws /\ Exists (fun q => qos_admits q 1 (body_size32 size) = false) ws).
 Proof.
-  intros ws size Hwf Hnw. unfold reserve.
+  intros ws size Hwf Hnw. unfold reserve, reserve_gen.
   exact (reserve_loop_spec (body_size32 size) ws [] [] eq_refl eq_refl Hwf Hnw).
 Qed.
 
@@ -488,24 +477,34 @@ Proof.
   vm_compute. discriminate.
 Qed.
 
+(* settling a delivery gives every window back exactly what the delivery charged *)
 Lemma release_all_after_reserve_h : forall ws size,
   Forall qos_wf ws -> Forall (fun q => qos_no_wrap q 1 (body_size32 size) = true) ws ->
-  Forall (fun q => qos_is_active q = true) ws ->
   fst (reserve true ws size) = true -> release_all (snd (reserve true ws size)) size = ws.
 Proof.
-  intros ws size Hwf Hnw Hact Hok.
+  intros ws size Hwf Hnw Hok.
   destruct (reserve_all_or_nothing_h ws size Hwf Hnw) as [H1 _]. destruct (H1 Hok) as [Heq _]. rewrite Heq.
   unfold release_all. rewrite map_map.
   clear Heq H1 Hok. induction ws as [| q t IH]; [reflexivity|].
-  inversion Hwf; inversion Hnw; inversion Hact; subst. cbn [map]. rewrite IH by assumption. f_equal.
-  unfold charge_if_active. match goal with H : qos_is_active q = true |- _ => rewrite H end.
-  match goal with H : qos_no_wrap q 1 _ = true |- _ => apply no_wrap_iff in H; destruct H as [Hc Hs] end.
-  match goal with H : qos_wf q |- _ => destruct H as (W1 & W2 & W3 & W4) end.
+  apply Forall_cons_iff in Hwf. destruct Hwf as [Hwq Hwt]. apply Forall_cons_iff in Hnw. destruct Hnw as [Hnq Hnt].
+  cbn [map]. rewrite IH by assumption. f_equal.
+  apply no_wrap_iff in Hnq. destruct Hnq as [Hc Hs]. destruct Hwq as (W1 & W2 & W3 & W4).
   rewrite dec_exact_h.
   - apply charged_released.
   - unfold qos_wf, qos_charged. cbn [prefetchCount currentCount prefetchSize currentSize]. repeat split; assumption.
   - unfold qos_charged. cbn [currentCount]. lia.
   - unfold qos_charged. cbn [currentSize]. lia.
+Qed.
+
+(* F49 (repaired in /repo 9fdcd31): the loop that skipped windows without limits left such a window
+   uncharged, and the settle (Dec on every window) then released a share it had never taken *)
+Lemma reserve_skipping_breaks_release_h : exists ws size,
+  Forall qos_wf ws /\ Forall (fun q => qos_no_wrap q 1 (body_size32 size) = true) ws /\
+  fst (reserve_gen true true ws size) = true /\ release_all (snd (reserve_gen true true ws size)) size <> ws.
+Proof.
+  exists [mkQos 0 2 0 10], 5.
+  split; [repeat constructor|]. split; [repeat constructor|]. split; [reflexivity|].
+  vm_compute. discriminate.
 Qed.
 
 (* ---- the same statements about the functions translated from qos.go ------------------- *)
